@@ -69,6 +69,11 @@ def check(run, prog, tier):
                       "question has_temperature() does not answer 'no' by catching every failure of get_temperature() (the builders "
                       "take 'no' for zero temperature)", minimum=1)
     rule_N(run, prog)
+    run.rule("C14-O", "a state whose defining basis is fixed by the request is 'the same physical state inside or outside a "
+                      "basis-change context': what is handed out inside nested contexts is brought to the current basis by the "
+                      "product of the stacked transformations, outer-first (shared with C04-B5)", minimum=1)
+    from . import c04
+    c04.rule_B5_composition(RuleProxy(run, "C14-O"), prog, "C14-O")
 
 
 def rule_N(run, prog):
